@@ -1,34 +1,42 @@
 ---- MODULE Sim_Resources ----
-(* Simulation wrapper of Resources: the same actions, parameters drawn with RandomElement
-   (biased towards enabled instances) so that one simulation step evaluates one instance per
-   action; `hist` is the behaviour (sequence of labels), printed as JSON at SimDepth. *)
+(* Simulation wrapper of Resources: the same actions, parameters drawn with RandomElement (biased
+   towards enabled instances and towards nesting) so that one simulation step evaluates a few
+   instances instead of every parameter combination; `coin` selects which actions are offered in a
+   step; `hist` is the behaviour (sequence of labels), printed as JSON at SimDepth. *)
 EXTENDS MC_Resources
 VARIABLE hist
 Pick(S, dflt) == IF S = {} THEN dflt ELSE RandomElement(S)
 SimInit == Init /\ hist = << >>
-FreeFor(u) == {pl \in Places : Free(Take(loc, u), pl, u)}
+Cand(l) == SlotPlaces \cup StorePlaces \cup {pl \in NestedPlaces : l[pl.a] # Nowhere}
+FreeFor(u) == LET l1 == Take(loc, u) IN {pl \in Cand(l1) : Free(l1, pl, u)}
+PreferNested(S) == IF S \cap NestedPlaces # {} THEN S \cap NestedPlaces ELSE S
 SimStep ==
   LET live == Live(loc)
+      coin == RandomElement(1..10)
       u    == Pick(live, 1)
       v    == Pick(live, 1)
       w    == Pick(live \cup {0}, 0)
-      coin == RandomElement(1..10)
-      d1   == Pick(IF coin <= 5 THEN FreeFor(u) ELSE FreeFor(u) \cap (SlotPlaces \cup StorePlaces), SlotPl(1))
-      d2   == RandomElement(Places)
+      ff   == FreeFor(u)
+      d1   == Pick(IF coin <= 4 THEN PreferNested(ff) ELSE ff, SlotPl(1))
+      d2   == Pick(Cand(loc), SlotPl(1))
       d3   == RandomElement(SlotPlaces \cup StorePlaces)
       d4   == Pick({loc[x] : x \in live \ {u}}, SlotPl(1))
       i    == RandomElement(Slots)
       j    == RandomElement(Slots)
       fn   == RandomElement(BOOLEAN)
   IN \/ Begin
-     \/ (coin = 1 \/ nops >= MaxOps) /\ Commit
+     \/ ((coin = 1 /\ nops >= 3) \/ nops >= MaxOps) /\ Commit
      \/ coin = 2 /\ nops >= 2 /\ Abort
-     \/ Create(SlotPl(i)) \/ Create(d2)
-     \/ Move(u, d1, fn) \/ Move(v, d3, FALSE)
-     \/ Swap(i, j)
-     \/ Shift(w, v, d3) \/ Shift(w, u, d2)
-     \/ coin <= 4 /\ Destroy(u)
-     \/ coin = 3 /\ BadMove(u, d4)
+     \/ (coin \in {1, 2, 3} \/ live = {}) /\ Create(SlotPl(i))
+     \/ coin = 3 /\ Create(d2)
+     \/ coin \in {3, 4, 5, 6, 7} /\ Move(u, d1, fn)
+     \/ coin = 8 /\ Move(v, d3, FALSE)
+     \/ coin = 8 /\ Swap(i, j)
+     \/ coin = 9 /\ Shift(w, v, d3)
+     \/ coin = 9 /\ Shift(w, u, d2)
+     \/ coin = 10 /\ Destroy(u)
+     \/ coin = 10 /\ BadMove(u, d4)
+     \/ Peek
 SimNext == SimStep /\ hist' = Append(hist, last')
 SimSpec == SimInit /\ [][SimNext]_<<vars, hist>>
 SimDepth == 60
